@@ -208,9 +208,22 @@ def static_app(root, dflt, pattern=r"/static/(.*)"):
     return web.Application([(pattern, web.StaticFileHandler, kw)])
 
 
-def static_request(root, dflt, method, raw, prefix="/static/", pattern=r"/static/(.*)", headers=()):
-    key = ("static", root, dflt, pattern)
-    return http().request(key, lambda: static_app(root, dflt, pattern), method, prefix + wire(raw), headers)
+def spelled_root(root, spell):
+    """The same directory, spelled the way an application might configure it (StaticPath.SpelledRoot)."""
+    if spell == "trailing":
+        return root + "/"
+    if spell == "dotted":
+        return os.path.join(os.path.dirname(root), ".", os.path.basename(root))
+    if spell == "dotdot":
+        return os.path.join(root, "sub", "..")
+    if spell == "relative":
+        return os.path.relpath(root)
+    return root
+
+
+def static_request(root, dflt, method, raw, prefix="/static/", pattern=r"/static/(.*)", headers=(), spell="plain"):
+    key = ("static", root, dflt, pattern, spell)
+    return http().request(key, lambda: static_app(spelled_root(root, spell), dflt, pattern), method, prefix + wire(raw), headers)
 
 
 def project_static(method, resp):
@@ -279,7 +292,8 @@ def read_dump_fast(fn, variables):
     return out
 
 
-def mc_states(ctx, spec_dir, module, cfg, overrides=None, required_actions=(), variables=("cfg", "step"), timeout=None):
+def mc_states(ctx, spec_dir, module, cfg, overrides=None, required_actions=(), variables=("cfg", "step"), timeout=None,
+              violation_sig=None):
     """One TLC run that both model-checks the specification (all INVARIANT lines of the cfg) and
     dumps every reachable state; for the function-like specifications of this family each state
     after a request is one test case carrying TLC's expected response.  Returns [(extra, [step])].
@@ -298,7 +312,7 @@ def mc_states(ctx, spec_dir, module, cfg, overrides=None, required_actions=(), v
         cfgp = make_cfg(cfgp, overrides, ctx.scratch, "%s_%d_%s" % (module, len(os.listdir(ctx.scratch)), os.path.basename(cfg)))
     dump = os.path.join(ctx.scratch, "%s_mcdump_%d" % (module, len(os.listdir(ctx.scratch))))
     t0 = time.time()
-    r = tlc.run(sd, module, cfgp, timeout=timeout or ctx.pick(300, 1500), dump=dump)
+    r = tlc.run(sd, module, cfgp, timeout=timeout or ctx.pick(900, 1500), dump=dump)
     ov = {k: (sorted(v) if isinstance(v, (set, frozenset)) else v) for k, v in (overrides or {}).items()}
     ctx.cov["states"] += r.distinct
     ctx.cov["transitions"] += r.generated
@@ -307,7 +321,10 @@ def mc_states(ctx, spec_dir, module, cfg, overrides=None, required_actions=(), v
     ctx.cov["checker_cmd"].append("tlc -dump -config %s %s" % (cfg, module))
     if not r.ok:
         states = tlc.parse_error_trace(r.violation["text"])
-        ctx.violation({"kind": "spec", "module": module, "name": r.violation["name"], "what": r.violation["kind"]},
+        sig = {"kind": "spec", "module": module, "name": r.violation["name"], "what": r.violation["kind"]}
+        if violation_sig:
+            sig.update(violation_sig(r, states) or {})
+        ctx.violation(sig,
                       {"tlc_trace": canon([[a, s] for a, s in states]) or r.violation["text"][:6000]})
     fn = dump + ".dump"
     states = read_dump_fast(fn, set(variables)) if os.path.exists(fn) else []
